@@ -121,6 +121,26 @@ func readerTable(w *World, fn *ssa.Function) readerTab {
 				}
 			}
 		}
+		if p.Ret[1].Op == "nil" && !p.Ret[0].IsConst() {
+			// the spelling table of the reader this one delegates to, narrowed by the tests on its result
+			if g, set, ok := delegated(w, fn, p); ok {
+				gt := readerTable(w, g)
+				rt.problems = append(rt.problems, gt.problems...)
+				lowersHere := stripConv(stripConv(p.Ret[0]).A[0].A[0]).Op == "call"
+				if !gt.lowered && !lowersHere {
+					rt.lowered = false
+				}
+				for k, v := range gt.m {
+					if v >= 0 && v < 64 && set&(1<<uint(v)) != 0 {
+						rt.m[k] = v
+					}
+				}
+				if gt.rejects {
+					rt.rejects = true
+				}
+				continue
+			}
+		}
 		if p.Ret[1].Op == "nil" {
 			if key == nil || !p.Ret[0].IsConst() {
 				rt.problems = append(rt.problems, "success path without a matched literal or with a non-constant result")
@@ -136,12 +156,12 @@ func readerTable(w *World, fn *ssa.Function) readerTab {
 
 func ruleTabMnemonic(w *World, r *RuleResult) {
 	type fam struct {
-		typ          string
-		rd, rd88     *ssa.Function
-		reader       string
-		reader88     string
-		lower        bool
-		set88        []string
+		typ      string
+		rd, rd88 *ssa.Function
+		reader   string
+		reader88 string
+		lower    bool
+		set88    []string
 	}
 	aa := Asm(w)
 	nameOf := func(f *ssa.Function) string {
@@ -467,13 +487,61 @@ func retSet(w *World, fn *ssa.Function) (uint64, bool) {
 	var s uint64
 	for _, p := range paths {
 		if p.End == "ret" && len(p.Ret) == 2 && p.Ret[1].Op == "nil" {
-			if !p.Ret[0].IsConst() {
+			if p.Ret[0].IsConst() {
+				s |= 1 << uint(p.Ret[0].C)
+				continue
+			}
+			// the value read by another reader, possibly narrowed by tests on it
+			g, set, ok := delegated(w, fn, p)
+			if !ok {
 				return 0, false
 			}
-			s |= 1 << uint(p.Ret[0].C)
+			gs, ok := retSet(w, g)
+			if !ok {
+				return 0, false
+			}
+			s |= gs & set
 		}
 	}
 	return s, true
+}
+
+func funcByKey(w *World, key string) *ssa.Function {
+	for _, f := range libFuncs(w) {
+		if fnKey(f) == key {
+			return f
+		}
+	}
+	return nil
+}
+
+// delegated: the success path p of reader fn returns the first result of
+// another library reader g applied to fn's own input; set is the refinement
+// the path's tests put on that result.
+func delegated(w *World, fn *ssa.Function, p *Path) (g *ssa.Function, set uint64, ok bool) {
+	v := p.Ret[0]
+	x := stripConv(v)
+	if !(x.Op == "ext" && x.C == 1 && x.A[0].Op == "call" && len(x.A[0].A) >= 1) {
+		return nil, 0, false
+	}
+	g = funcByKey(w, x.A[0].S)
+	if g == nil || g == fn {
+		return nil, 0, false
+	}
+	arg := stripConv(x.A[0].A[0])
+	if arg.Op == "call" && arg.S == "strings.ToLower" && len(arg.A) == 1 {
+		arg = stripConv(arg.A[0])
+	}
+	if arg.Op != "p" {
+		return nil, 0, false
+	}
+	set = ^uint64(0)
+	for k, st := range p.Sets {
+		if stripEpoch(p.SetTerms[k]).Key() == stripEpoch(v).Key() || stripEpoch(p.SetTerms[k]).Key() == stripEpoch(x).Key() {
+			set = st
+		}
+	}
+	return g, set, true
 }
 
 func ruleTabLegal88(w *World, r *RuleResult) {
@@ -495,7 +563,7 @@ func ruleTabLegal88(w *World, r *RuleResult) {
 	}
 	opN, amN, omN := w.EnumValues("OpCode"), w.EnumValues("AddressMode"), w.EnumValues("OpMode")
 	// per caller: value sets of the three arguments
-	callers := w.Callers(fn)
+	callers := w.CallerRoots(fn)
 	if len(callers) == 0 {
 		r.bad("callers", pos, "the '88 validator is never called")
 		return
@@ -504,8 +572,7 @@ func ruleTabLegal88(w *World, r *RuleResult) {
 	setsOf := map[*ssa.Function]*argSets{}
 	allOps, _ := w.enumDomain(w.NamedType("OpCode"))
 	allModes, _ := w.enumDomain(w.NamedType("AddressMode"))
-	for _, call := range callers {
-		caller := call.Parent()
+	for _, caller := range callers {
 		paths, err := w.Paths(caller)
 		if err != nil {
 			r.undecided(caller.Name(), w.Pos(caller.Pos()), err.Error())
